@@ -109,6 +109,7 @@ func buildProblem(t *world.TaskSpec, out *Outcome) (*solver.Problem, bool) {
 	case "opb":
 		rd := NewSimReader(t.Text, t.Chunks, t.EOFWith)
 		p, err := solver.ParseOPB(rd)
+		out.readerFaults(rd)
 		if err != nil {
 			out.fail("C13", "opb-parse-error", "well-formed OPB text rejected: %v; text=%q", err, t.Text)
 			return nil, false
@@ -209,8 +210,10 @@ func execPB(env Env, t *world.TaskSpec, out *Outcome) {
 		}
 		s := newSolver(t, pb, mode, t.AMO)
 		var tap *tapCollector
+		mark := len(out.Viol)
 		if mode && prop == "C14" {
 			tap = newTap(env, rp)
+			env.Phase("cp")
 		}
 		status := s.Solve()
 		if tap != nil {
@@ -220,6 +223,10 @@ func execPB(env Env, t *world.TaskSpec, out *Outcome) {
 		statsProbes(s, out)
 		verdicts = append(verdicts, statusStr(status))
 		judgeDecision(prop, fmt.Sprintf("cp=%v amo=%v route=%s", mode, t.AMO, t.Route), rp, truth, status, s, out, t)
+		if mode && prop == "C14" {
+			markCP(out, mark)
+			env.Phase("")
+		}
 	}
 	out.Summary = "pb:" + verdicts[0]
 }
@@ -332,5 +339,12 @@ func (tc *tapCollector) judge(out *Outcome, t *world.TaskSpec) {
 	sort.Strings(tc.bad)
 	if len(tc.bad) > 0 {
 		out.fail("C14", "learned-not-entailed", "%s; problem=%v", tc.bad[0], t.Cons)
+	}
+}
+
+// markCP tags the violations found while the cutting-planes strategy was on.
+func markCP(out *Outcome, from int) {
+	for i := from; i < len(out.Viol); i++ {
+		out.Viol[i].Clause += "@cp"
 	}
 }
